@@ -86,7 +86,10 @@ struct VThread {
   VC acq_pending_vis;
   VC fence_rel;       // vc at the last release fence
   VC fence_rel_vis;
+  uint32_t fence_rel_sc_seen;
   bool has_fence_rel;
+  uint32_t sc_seen;        // position in S up to which this thread must observe seq_cst writes (set by seq_cst fences, inherited by acquire)
+  uint32_t acq_pending_sc; // collected by relaxed loads, applied at the next acquire fence
   void (*fn)(void*);
   void* arg;
   int parent;
@@ -119,7 +122,8 @@ struct Global {
   uint64_t lclock;
   uint64_t gwrites;
   int livelock_rounds;
-  VC sc_vis; // global seq_cst view
+  VC sc_vis; // view published by seq_cst fences
+  uint32_t sc_seq; // length of the seq_cst order of writes
   volatile int done_futex;
   uint64_t trace_hash;
   Test* test;
@@ -700,6 +704,7 @@ struct Msg {
   VC relvis;         // visibility view released
   uint16_t seq_mask; // threads heading a release sequence this message belongs to
   bool has_rel;
+  uint32_t rel_sc_seen; // releaser's knowledge of the seq_cst order (see Loc::scw_*)
 };
 struct Floor { // (clk, ts) pairs: an event of thread t at clock clk saw/wrote timestamp ts
   uint32_t clk[NFLOOR];
@@ -712,6 +717,12 @@ struct Loc {
   uint8_t size;
   int nmsg;
   uint32_t next_ts;
+  // the last seq_cst writes to this location: position in the global seq_cst order S and timestamp.  A seq_cst
+  // load must not read anything older than the latest of them; any load by a thread whose last seq_cst fence
+  // (or acquired knowledge) follows such a write in S must not read anything older than that write.
+  uint32_t scw_seq[3], scw_ts[3];
+  uint32_t scw_dropped_ts;
+  uint8_t scw_n;
   Msg m[MAXMSG];
   Floor fl[MAXT];
 };
@@ -831,14 +842,40 @@ static inline uint32_t floor_of(Loc* l, VThread* me) {
   return fl;
 }
 
+// seq_cst modelling (wmm mode).  seq_cst fences are totally ordered visibility barriers: a fence publishes the
+// thread's whole view and acquires what earlier fences published.  A seq_cst access does NOT publish the thread's
+// earlier non-seq_cst stores (a release store followed by a seq_cst load may be reordered - store buffering);
+// it only takes part in S: a seq_cst write is recorded per location, a seq_cst load reads nothing older than the
+// latest seq_cst write to its location, and it observes what earlier fences published.
 static inline void sc_pre(VThread* me) { me->vis.join(g.sc_vis); }
-static inline void sc_post(VThread* me) { g.sc_vis.join(me->vis); }
+static inline void sc_fence_post(VThread* me) { g.sc_vis.join(me->vis); }
+static inline void sc_record_write(Loc* l, uint32_t ts) {
+  if (l->scw_n == 3) {
+    l->scw_dropped_ts = l->scw_ts[0];
+    l->scw_seq[0] = l->scw_seq[1];
+    l->scw_ts[0] = l->scw_ts[1];
+    l->scw_seq[1] = l->scw_seq[2];
+    l->scw_ts[1] = l->scw_ts[2];
+    l->scw_n = 2;
+  }
+  l->scw_seq[l->scw_n] = ++g.sc_seq;
+  l->scw_ts[l->scw_n] = ts;
+  l->scw_n++;
+}
+// smallest timestamp a load may read because of the seq_cst order: `seen` = position in S the loader must respect
+static inline uint32_t sc_floor(const Loc* l, uint32_t seen) {
+  for (int i = l->scw_n - 1; i >= 0; i--)
+    if (l->scw_seq[i] <= seen) return l->scw_ts[i];
+  return seen ? l->scw_dropped_ts : 0; // conservative for dropped entries
+}
 
 // choose the message a load by `me` reads from
-static Msg* pick_message(VThread* me, Loc* l, bool for_cas, uint64_t expected) {
+static Msg* pick_message(VThread* me, Loc* l, bool for_cas, uint64_t expected, bool sc_load) {
   Msg* newest = &l->m[l->nmsg - 1];
   if (g_cfg.mode == 0 || l->nmsg == 1) return newest;
   uint32_t fl = floor_of(l, me);
+  uint32_t scf = sc_floor(l, sc_load ? g.sc_seq : me->sc_seen);
+  if (scf > fl) fl = scf;
   Msg* cand[MAXMSG];
   int n = 0;
   cand[n++] = newest;
@@ -859,9 +896,11 @@ static inline void apply_acquire(VThread* me, const Msg* m, int mo) {
     me->vc.join(m->rel);
     me->vis.join(m->relvis);
     me->vis.join(me->vc);
+    if (m->rel_sc_seen > me->sc_seen) me->sc_seen = m->rel_sc_seen;
   } else {
     me->acq_pending.join(m->rel);
     me->acq_pending_vis.join(m->relvis);
+    if (m->rel_sc_seen > me->acq_pending_sc) me->acq_pending_sc = m->rel_sc_seen;
   }
 }
 
@@ -952,11 +991,10 @@ static uint64_t atomic_core(AK k, uintptr_t a, int size, uint64_t v, uint64_t* e
   if (sc) sc_pre(me);
   uint64_t ret = 0;
   if (k == A_LOAD) {
-    Msg* m = pick_message(me, l, false, 0);
+    Msg* m = pick_message(me, l, false, 0, sc);
     ret = m->val;
     apply_acquire(me, m, mo);
     floor_add(l, me->id, myclk, m->ts);
-    if (sc) sc_post(me);
     g.trace_hash = mix64(g.trace_hash, (uint64_t(me->id) << 56) ^ (a << 8) ^ ret);
     TRACE("  %6lu T%d load%d  %p -> %#lx mo=%d%s rel=%d[%u %u %u %u]\n", (unsigned long)g.steps, me->id, size * 8, (void*)a, (unsigned long)ret, mo,
           m == &l->m[l->nmsg - 1] ? "" : " (STALE)", (int)m->has_rel, m->rel.c[0], m->rel.c[1], m->rel.c[2], m->rel.c[3]);
@@ -968,6 +1006,7 @@ static uint64_t atomic_core(AK k, uintptr_t a, int size, uint64_t v, uint64_t* e
     uint16_t prev_mask = prev->seq_mask;
     bool prev_has = prev->has_rel;
     VC prev_rel, prev_relvis;
+    uint32_t prev_sc_seen = prev->rel_sc_seen;
     if (prev_has) {
       prev_rel = prev->rel;
       prev_relvis = prev->relvis;
@@ -976,6 +1015,7 @@ static uint64_t atomic_core(AK k, uintptr_t a, int size, uint64_t v, uint64_t* e
     if (mo_release(mo)) {
       m->rel = me->vc;
       m->relvis = me->vis;
+      m->rel_sc_seen = me->sc_seen;
       m->has_rel = true;
       m->seq_mask = uint16_t(1u << me->id);
     } else {
@@ -985,13 +1025,16 @@ static uint64_t atomic_core(AK k, uintptr_t a, int size, uint64_t v, uint64_t* e
         m->relvis = prev_relvis;
         m->has_rel = true;
         m->seq_mask = prev_mask;
+        m->rel_sc_seen = prev_sc_seen;
         if (me->has_fence_rel) {
           m->rel.join(me->fence_rel);
           m->relvis.join(me->fence_rel_vis);
+          if (me->fence_rel_sc_seen > m->rel_sc_seen) m->rel_sc_seen = me->fence_rel_sc_seen;
         }
       } else if (me->has_fence_rel) {
         m->rel = me->fence_rel;
         m->relvis = me->fence_rel_vis;
+        m->rel_sc_seen = me->fence_rel_sc_seen;
         m->has_rel = true;
         m->seq_mask = uint16_t(1u << me->id);
       } else {
@@ -1001,7 +1044,7 @@ static uint64_t atomic_core(AK k, uintptr_t a, int size, uint64_t v, uint64_t* e
     }
     real_store(a, size, v);
     floor_add(l, me->id, myclk, m->ts);
-    if (sc) sc_post(me);
+    if (sc) sc_record_write(l, m->ts);
     g.trace_hash = mix64(g.trace_hash, (uint64_t(me->id) << 56) ^ (a << 8) ^ v ^ 0x5555);
     TRACE("  %6lu T%d store%d %p <- %#lx mo=%d\n", (unsigned long)g.steps, me->id, size * 8, (void*)a, (unsigned long)v, mo);
     own_write(me, a);
@@ -1011,14 +1054,13 @@ static uint64_t atomic_core(AK k, uintptr_t a, int size, uint64_t v, uint64_t* e
   Msg* rd;
   if (k == A_CAS) {
     uint64_t exp = trunc_to(*expected, size);
-    rd = pick_message(me, l, true, exp);
+    rd = pick_message(me, l, true, exp, sc);
     if (rd->val != exp) {
       // failed CAS = load with the failure order
       *expected = rd->val;
       *ok = false;
       apply_acquire(me, rd, fmo);
       floor_add(l, me->id, myclk, rd->ts);
-      if (sc) sc_post(me);
       g.trace_hash = mix64(g.trace_hash, (uint64_t(me->id) << 56) ^ (a << 8) ^ rd->val ^ 0xcccc);
       TRACE("  %6lu T%d cas%d   %p expected %#lx found %#lx FAIL mo=%d/%d\n", (unsigned long)g.steps, me->id, size * 8, (void*)a,
             (unsigned long)exp, (unsigned long)rd->val, mo, fmo);
@@ -1046,6 +1088,7 @@ static uint64_t atomic_core(AK k, uintptr_t a, int size, uint64_t v, uint64_t* e
   // the new message continues every release sequence the read message belongs to
   bool has = rd->has_rel;
   VC rel, relvis;
+  uint32_t rel_sc = has ? rd->rel_sc_seen : 0;
   uint16_t mask = rd->seq_mask;
   if (has) {
     rel = rd->rel;
@@ -1057,22 +1100,25 @@ static uint64_t atomic_core(AK k, uintptr_t a, int size, uint64_t v, uint64_t* e
   if (mo_release(mo)) {
     rel.join(me->vc);
     relvis.join(me->vis);
+    if (me->sc_seen > rel_sc) rel_sc = me->sc_seen;
     has = true;
     mask |= uint16_t(1u << me->id);
   } else if (me->has_fence_rel) {
     rel.join(me->fence_rel);
     relvis.join(me->fence_rel_vis);
+    if (me->fence_rel_sc_seen > rel_sc) rel_sc = me->fence_rel_sc_seen;
     has = true;
     mask |= uint16_t(1u << me->id);
   }
   Msg* m = append_message(me, l, nv);
   m->rel = rel;
   m->relvis = relvis;
+  m->rel_sc_seen = rel_sc;
   m->has_rel = has;
   m->seq_mask = mask;
   real_store(a, size, nv);
   floor_add(l, me->id, myclk, m->ts);
-  if (sc) sc_post(me);
+  if (sc) sc_record_write(l, m->ts);
   g.trace_hash = mix64(g.trace_hash, (uint64_t(me->id) << 56) ^ (a << 8) ^ nv ^ 0xaaaa);
   TRACE("  %6lu T%d %s%d %p %#lx -> %#lx mo=%d\n", (unsigned long)g.steps, me->id, ak_name[k], size * 8, (void*)a,
         (unsigned long)old, (unsigned long)nv, mo);
@@ -1093,14 +1139,17 @@ static void fence_core(int mo) {
     me->vc.join(me->acq_pending);
     me->vis.join(me->acq_pending_vis);
     me->vis.join(me->vc);
+    if (me->acq_pending_sc > me->sc_seen) me->sc_seen = me->acq_pending_sc;
   }
   if (mo_sc(mo)) {
     sc_pre(me);
-    sc_post(me);
+    sc_fence_post(me);
+    me->sc_seen = g.sc_seq; // every seq_cst write so far precedes this fence in S
   }
   if (mo_release(mo)) {
     me->fence_rel = me->vc;
     me->fence_rel_vis = me->vis;
+    me->fence_rel_sc_seen = me->sc_seen;
     me->has_fence_rel = true;
   }
   TRACE("  %6lu T%d fence mo=%d\n", (unsigned long)g.steps, me->id, mo);
@@ -1283,6 +1332,7 @@ struct MutexRec {
   const void* addr;
   int owner; // -1 free
   VC vc, vis;
+  uint32_t sc_seen;
 };
 static MutexRec g_mutex[64];
 static int g_nmutex;
@@ -1312,6 +1362,7 @@ static int model_mutex_lock(const void* m, bool try_only) {
   me->vc.join(r->vc);
   me->vis.join(r->vis);
   me->vis.join(me->vc);
+  if (r->sc_seen > me->sc_seen) me->sc_seen = r->sc_seen;
   TRACE("  %6lu T%d mutex_lock %p\n", (unsigned long)g.steps, me->id, m);
   return 0;
 }
@@ -1322,6 +1373,7 @@ static int model_mutex_unlock(const void* m) {
   r->owner = -1;
   r->vc = me->vc;
   r->vis = me->vis;
+  r->sc_seen = me->sc_seen;
   for (int i = 0; i < g.nth; i++)
     if (g.th[i].state == TS_BLOCKED_MUTEX && g.th[i].mutex_wait == m) g.th[i].state = TS_RUNNABLE;
   g.gwrites++;
@@ -1608,6 +1660,7 @@ int spawn_raw(void (*fn)(void*), void* arg) {
   VThread* t = new_vthread(fn, arg, me->id);
   t->vc = me->vc;
   t->vis = me->vis;
+  t->sc_seen = me->sc_seen;
   t->vc.c[t->id] = 1;
   t->vis.c[t->id] = 1;
   me->vc.c[me->id]++;
@@ -1635,6 +1688,7 @@ void join(int tid) {
   me->vc.join(t->vc);
   me->vis.join(t->vis);
   me->vis.join(me->vc);
+  if (t->sc_seen > me->sc_seen) me->sc_seen = t->sc_seen;
   TRACE("  ------ T%d joined T%d\n", me->id, tid);
 }
 
